@@ -481,6 +481,53 @@ fn judge17(scen_seed: u64, r: &RunResult) -> Result<u64, (String, String)> {
     Ok(order.0)
 }
 
+// ------------------------------------------------------------------ C09: one decision while another thread flips the global choice
+
+/// A decision made while the global choice is being changed must be the decision for one of the
+/// values the global held meanwhile: here the explicit `AlwaysAnsi`, or - for `Auto` - what the
+/// environment rules give for a non-terminal `Vec` with none of the variables set (`Never`).
+/// `Auto` itself, or anything else, is not a decision.
+fn child09(scen_seed: u64) -> i32 {
+    let _ = std::io::stderr().write_all(BEGIN_MARKER);
+    let rounds = 12 + (scen_seed % 8) as usize;
+    let writer = std::thread::spawn(move || {
+        for i in 0..rounds {
+            if i % 2 == 0 { ColorChoice::AlwaysAnsi } else { ColorChoice::Auto }.write_global();
+        }
+    });
+    let reader = std::thread::spawn(move || {
+        let sink: Vec<u8> = Vec::new();
+        let mut bad = Vec::new();
+        for i in 0..rounds {
+            let c = anstream::AutoStream::choice(&sink);
+            if c != ColorChoice::AlwaysAnsi && c != ColorChoice::Never {
+                bad.push(format!("decision {i} = {c:?}"));
+            }
+        }
+        bad
+    });
+    writer.join().unwrap();
+    let bad = reader.join().unwrap();
+    if !bad.is_empty() {
+        let _ = std::io::stderr().write_all(format!("#DECISION-VIOLATION {}\n", bad.join("; ")).as_bytes());
+        return 3;
+    }
+    0
+}
+
+fn judge09(_scen_seed: u64, r: &RunResult) -> Result<u64, (String, String)> {
+    let err_text = String::from_utf8_lossy(&r.err).to_string();
+    if r.status == 3 || err_text.contains("#DECISION-VIOLATION") {
+        let line = err_text.lines().find(|l| l.contains("#DECISION-VIOLATION")).unwrap_or("").to_string();
+        return Err(("torn-decision".into(), line));
+    }
+    if r.status != 0 {
+        let tail: String = err_text.chars().rev().take(1200).collect::<String>().chars().rev().collect();
+        return Err(("child-failed".into(), format!("exit status {}: {}", r.status, tail)));
+    }
+    Ok(0)
+}
+
 // ------------------------------------------------------------------ checker (native)
 
 fn strip(s: &str) -> String {
@@ -783,8 +830,17 @@ fn drive(seed: u64, first: u64, count: u64, report: &str) -> i32 {
 
 /// `drive17 <seed> <count> <report>`: the C17 concurrency clause under Miri.
 fn drive17(seed: u64, count: u64, report: &str) -> i32 {
+    drive_role("child17", judge17, seed, count, report)
+}
+
+/// `drive09 <seed> <count> <report>`: the C09 "one decision reads the world once" clause under Miri.
+fn drive09(seed: u64, count: u64, report: &str) -> i32 {
+    drive_role("child09", judge09, seed, count, report)
+}
+
+fn drive_role(role: &str, judge: fn(u64, &RunResult) -> Result<u64, (String, String)>, seed: u64, count: u64, report: &str) -> i32 {
     let start = std::time::Instant::now();
-    let _ = miri_run_role("child17", 0, "0.1", 0);
+    let _ = miri_run_role(role, 0, "0.1", 0);
     let workers = std::env::var("VERIF_WORKERS").ok().and_then(|v| v.parse().ok()).unwrap_or_else(|| std::thread::available_parallelism().map(|n| n.get()).unwrap_or(4));
     let next = std::sync::atomic::AtomicU64::new(0);
     let results = std::sync::Mutex::new(Vec::new());
@@ -798,8 +854,8 @@ fn drive17(seed: u64, count: u64, report: &str) -> i32 {
                 let miri_seed = splitmix64(seed ^ i.wrapping_mul(0x9E37) ^ 0x17) % (1 << 31);
                 let rate = RATES[(i % RATES.len() as u64) as usize];
                 let scen_seed = splitmix64(seed.wrapping_add(i / 4) ^ 0x1717) % 1_000_000;
-                let verdict = match miri_run_role("child17", miri_seed, rate, scen_seed) {
-                    Ok(r) => judge17(scen_seed, &r).map_err(|(c, d)| (c, d, String::from_utf8_lossy(&r.out).to_string(), String::from_utf8_lossy(&r.err).to_string())),
+                let verdict = match miri_run_role(role, miri_seed, rate, scen_seed) {
+                    Ok(r) => judge(scen_seed, &r).map_err(|(c, d)| (c, d, String::from_utf8_lossy(&r.out).to_string(), String::from_utf8_lossy(&r.err).to_string())),
                     Err(e) => Err(("harness".to_string(), e.to_string(), String::new(), String::new())),
                 };
                 results.lock().unwrap().push((i, miri_seed, rate, scen_seed, verdict));
@@ -838,20 +894,28 @@ fn drive17(seed: u64, count: u64, report: &str) -> i32 {
 }
 
 fn replay17(path: &str) -> i32 {
+    replay_role(path, "child17", judge17, "C17")
+}
+
+fn replay09(path: &str) -> i32 {
+    replay_role(path, "child09", judge09, "C09")
+}
+
+fn replay_role(path: &str, role: &str, judge: fn(u64, &RunResult) -> Result<u64, (String, String)>, prop: &str) -> i32 {
     let Ok(text) = std::fs::read_to_string(path) else { return 2 };
     let (Some(ms), Some(rate), Some(ss)) = (field(&text, "miri_seed"), field(&text, "preemption_rate"), field(&text, "scenario_seed")) else { return 2 };
     let (ms, ss): (u64, u64) = (ms.parse().unwrap_or(0), ss.parse().unwrap_or(0));
-    println!("replay: cargo +nightly miri run -- child17 {ss}   with -Zmiri-seed={ms} -Zmiri-preemption-rate={rate}");
-    match miri_run_role("child17", ms, rate, ss) {
+    println!("replay: cargo +nightly miri run -- {role} {ss}   with -Zmiri-seed={ms} -Zmiri-preemption-rate={rate}");
+    match miri_run_role(role, ms, rate, ss) {
         Err(_) => 2,
-        Ok(r) => match judge17(ss, &r) {
+        Ok(r) => match judge(ss, &r) {
             Ok(_) => {
                 println!("replay: no violation");
                 0
             }
             Err((class, detail)) => {
                 println!("replay: class={class}\n  {detail}");
-                println!("VIOLATION property=C17 replay={path}");
+                println!("VIOLATION property={prop} replay={path}");
                 1
             }
         },
@@ -907,6 +971,9 @@ fn main() {
     let code = match args.get(1).map(|s| s.as_str()) {
         Some("child") => child(p(2)),
         Some("child17") => child17(p(2)),
+        Some("child09") => child09(p(2)),
+        Some("drive09") if args.len() >= 5 => drive09(p(2), p(3), &args[4]),
+        Some("replay09") if args.len() >= 3 => replay09(&args[2]),
         Some("drive17") if args.len() >= 5 => drive17(p(2), p(3), &args[4]),
         Some("replay17") if args.len() >= 3 => replay17(&args[2]),
         Some("drive") if args.len() >= 6 => drive(p(2), p(3), p(4), &args[5]),
